@@ -26,7 +26,7 @@ CONSTANTS Intervals,  \* periods / delays doEvery / doAfter may choose (all >= 1
           MaxNow, MaxAdv, MaxCbOps,                                                  \* (model checking only)
           NullTok,    \* the null token (TimerToken())
           Variant     \* "intended" | "clear_resets_id" | "lazy_cancel" | "delete_now" | "oneshot_keeps_token"
-                      \* | "cleanup_no_disable" | "cancel_leaks" | "rearm_now"
+                      \* | "cleanup_no_disable" | "cancel_leaks" | "rearm_now" | "at_wraps" (the code as found: unsigned deadline)
 
 NoFire == [t |-> 0, time |-> 0, at |-> 0, d |-> 0, k |-> 0, mode |-> "after", wasEn |-> TRUE, wasCab |-> TRUE, wasCan |-> FALSE,
            obj |-> "live", gdl |-> 0, prev |-> 0]
@@ -55,7 +55,8 @@ Frame == /\ nops' = IF phase = "cb" THEN nops + 1 ELSE nops
 \* doEvery / doAfter / doAt: new TimerEvent, cabinet.alloc, initialize, enable.  `delay` is the period (every) or the delay.
 Create(mode, delay, tk) ==
   /\ InCtx
-  /\ tm' = Append(tm, [mode |-> mode, d |-> delay, dl |-> now + delay, at |-> now, k |-> 0, tok |-> tk, cab |-> TRUE, en |-> TRUE,
+  /\ tm' = Append(tm, [mode |-> mode, d |-> delay, dl |-> (IF Variant = "at_wraps" /\ now + delay < 0 THEN 1000000 ELSE now + delay),
+                       at |-> now, k |-> 0, tok |-> tk, cab |-> TRUE, en |-> TRUE,
                        obj |-> "live", can |-> FALSE])
   /\ lastId' = tk /\ UNCHANGED <<now, ret, cancelBad>> /\ Frame
 DoEvery(dd, tk) == dd >= 1 /\ Create("every", dd, tk)
@@ -64,17 +65,21 @@ DoAt(e, tk) == Create("after", e, tk)
 \* a null callback: warning, null token, nothing created
 DoNull == /\ InCtx /\ UNCHANGED <<now, tm, lastId, ret, cancelBad>> /\ Frame
 
+\* the bookkeeping of a deleted timer is of no interest any more (keeps equivalent states equal)
+Forget(r) == IF r.obj = "dead" /\ ~r.en THEN [r EXCEPT !.d = 0, !.dl = 0, !.at = 0] ELSE r
 \* what cancel() / cleanup() do with a stored timer
-Drop(r) == [r EXCEPT !.cab = FALSE,
+DropIt(r) == [r EXCEPT !.cab = FALSE,
                      !.en = IF Variant = "lazy_cancel" THEN @ ELSE FALSE,
                      !.obj = IF Variant = "cancel_leaks" /\ lp # "run" THEN @
                              ELSE IF lp = "run" /\ Variant # "delete_now" THEN "pend" ELSE "dead",
                      !.can = TRUE]
+Drop(r) == Forget(DropIt(r))
 Hits(tk) == {t \in TS : tm[t].cab /\ tm[t].tok = tk}
 
 \* cancel() answers true exactly for a token the pool still holds: a periodic timer, or a one-shot that has not fired (or is cancelling
-\* itself from its own callback -- there the header does not say; both answers are accepted, the effect is the same); whatever the answer, nothing with that token is armed when cancel() returns (true => it was disarmed
-\* and never fires again, see NoFireAfterCancel; false => there was nothing to prevent)
+\* itself from its own callback -- there the header does not say; both answers are accepted, the effect is the same); whatever the
+\* answer, nothing with that token is armed when cancel() returns (true => it was disarmed and never fires again, see
+\* NoFireAfterCancel; false => there was nothing to prevent)
 Cancel(tk) ==
   /\ InCtx
   /\ IF Hits(tk) = {} THEN /\ ret' = FALSE /\ UNCHANGED tm
@@ -100,7 +105,7 @@ Advance(n) == /\ (phase = "idle" \/ (phase = "cb" /\ nops < MaxCbOps)) /\ n >= 0
               /\ UNCHANGED <<passNow, lp, phase, cur, pool, tm, lastId, ret, lastfire, prevDl, cancelBad>>
 
 (* ----------------------------------------- the loop --------------------------------------------------- *)
-Reap == [t \in TS |-> IF tm[t].obj = "pend" THEN [tm[t] EXCEPT !.obj = "dead"] ELSE tm[t]]
+Reap == [t \in TS |-> IF tm[t].obj = "pend" THEN Forget([tm[t] EXCEPT !.obj = "dead"]) ELSE tm[t]]
 LoopStart == /\ lp = "pre" /\ phase = "idle" /\ lp' = "run"
              /\ UNCHANGED <<now, passNow, phase, cur, nops, pool, tm, lastId, ret, lastfire, prevDl, cancelBad>>
 \* exitLoop(): the loop drains its deferred tasks before runLoop() returns
@@ -154,7 +159,7 @@ Spec == Init /\ [][Next]_vars
 TypeOK == /\ now >= 0 /\ passNow \in 0..now /\ lp \in {"pre", "run", "post"} /\ phase \in {"idle", "pass", "cb"}
           /\ cur \in TS \cup {0} /\ (phase = "cb") = (cur # 0) /\ (phase # "idle" => lp = "run") /\ pool \in {"alive", "gone"}
           /\ \A t \in TS : /\ tm[t].mode \in {"every", "after"} /\ tm[t].cab \in BOOLEAN /\ tm[t].en \in BOOLEAN /\ tm[t].can \in BOOLEAN
-                           /\ tm[t].obj \in {"live", "pend", "dead"} /\ tm[t].k >= 0 /\ (tm[t].mode = "every" => tm[t].d >= 1)
+                           /\ tm[t].obj \in {"live", "pend", "dead"} /\ tm[t].k >= 0 /\ (tm[t].mode = "every" /\ tm[t].obj # "dead" => tm[t].d >= 1)
 
 \* a token is handed out once: no two timers ever share a token, and none is the null token -- so a stale token can never cancel a
 \* younger timer
@@ -175,8 +180,10 @@ NoFireAfterCancel == lastfire.t # 0 => lastfire.wasEn /\ lastfire.wasCab /\ ~las
 \* never early: the k-th firing of doEvery(d) issued at `at` is not before at + k*d; doAfter(d): not before at + d
 NeverEarly == lastfire.t # 0 => lastfire.time >= lastfire.at + (IF lastfire.mode = "every" THEN lastfire.k ELSE 1) * lastfire.d
 \* between passes every armed timer has had all the firings that were due at the pass time (periodic timers keep firing, no period
-\* is skipped, a one-shot is not forgotten).  Timers created with a non-positive delay after the pass began are not concerned.
-NoSkip == phase = "idle" /\ lp = "run" => \A t \in TS : tm[t].en /\ tm[t].d >= 1 => passNow < tm[t].at + (tm[t].k + 1) * tm[t].d
+\* is skipped, a one-shot is not forgotten).  A doAt timer with a time point in the past (delay <= 0) must have fired in the first pass
+\* whose clock is later than the call.
+NoSkip == phase = "idle" /\ lp = "run" => \A t \in TS : tm[t].en => IF tm[t].d >= 1 THEN passNow < tm[t].at + (tm[t].k + 1) * tm[t].d
+                                                                       ELSE passNow <= tm[t].at
 Armed == \A t \in TS : tm[t].cab /\ ~tm[t].can /\ (tm[t].mode = "every" \/ tm[t].k = 0) => tm[t].en
 \* within one pass the intended deadlines are served in order (a doAt timer created during the pass with a time point in the past is
 \* not concerned)
